@@ -22,6 +22,7 @@ import ScalesModel.Adapter.Proxy
 import ScalesModel.Adapter.Uri
 import ScalesModel.Adapter.TimerQueue
 import ScalesModel.Adapter.MuxCodec
+import ScalesModel.Adapter.ThriftCodec
 open Scales
 
 def components : List Comp := [
@@ -41,7 +42,8 @@ def components : List Comp := [
   ⟨"proxy", Scales.Proxy.comp.run⟩,
   ⟨"uri", Scales.Uri.comp.run⟩,
   ⟨"timerq", Scales.TimerQ.comp.run⟩,
-  ⟨"muxcodec", Scales.MuxCodec.comp.run⟩
+  ⟨"muxcodec", Scales.MuxCodec.comp.run⟩,
+  ⟨"thriftcodec", Scales.ThriftCodec.comp.run⟩
 ]
 
 structure CaseAcc where
